@@ -405,7 +405,7 @@ def renderer(repo, res, classes):
         raise AnalysisError("only %d nullable query calls found in the obstacle drawers (8+ confirmed)" % n_calls)
 
     # the three short drawers are decided by evaluation: which time steps are asked of the model, and what is drawn
-    from ..strdom import Lenient
+    from ..strdom import Lenient, Str
 
     TB, TE = 3, 7  # an adversarially unspecial window: begin and end differ from 0, 1 and from each other by more than one
     dmod = repo.mod("commonroad/visualization/draw_params.py")
@@ -503,6 +503,50 @@ def renderer(repo, res, classes):
         elif a.get("angle", 0) not in (0, 0.0):
             bad = "rotates the ellipse by %s" % show(a.get("angle"))
     res.check("D-PATCH", "draw_ellipse: matplotlib ellipse at the centre, 2 * radius_x wide and 2 * radius_y high", bad is None, m, fn_, "draw_ellipse %s" % bad, "a circle is drawn with another size than the one the model reports", qualname="MPRenderer.draw_ellipse")
+
+    # draw_dynamic_obstacle, evaluated in the setting the property names (shape on; icons, signals, trajectories, extra
+    # occupancies, history, labels off): an obstacle living from step 5 to step 9, with a trajectory or a set-based
+    # prediction, under windows that lie before, around, inside and after its life
+    PR_ = "commonroad/prediction/prediction.py"
+    fn_dyn = r.methods["draw_dynamic_obstacle"]
+    T0, T1 = 5, 9
+    for kind in ("TrajectoryPrediction", "SetBasedPrediction"):
+        for tb, te in ((5, 8), (7, 9), (3, 10), (5, 6), (0, 4), (12, 15), (9, 12)):
+            drawn, asked = [], []
+
+            def occ_at(a, k, drawn=drawn, asked=asked):
+                t = a[0] if a else k.get("time_step")
+                asked.append(t)
+                if not (isinstance(t, int) and T0 <= t <= T1):
+                    return NONE
+                return Obj(None, {"draw": PyFunc(lambda a2, k2, t=t: (drawn.append(t), NONE)[1], "draw"), "shape": Obj(None, {}, closed=True, label="shape at %d" % t), "time_step": t}, closed=True, label="occupancy at %d" % t)
+
+            st = lambda t: Obj(None, {"is_uncertain_position": False, "time_step": t, "position": ListV([0.0, 0.0]), "orientation": 0.0}, closed=True, label="state at %s" % t)
+            traj = Obj(None, {"state_at_time_step": PyFunc(lambda a, k: st(a[0]) if isinstance(a[0], int) and T0 < a[0] <= T1 else NONE, "state_at_time_step"), "draw": PyFunc(lambda a, k: NONE, "draw")}, closed=True, label="trajectory")
+            pred = Obj(repo.cls(PR_, kind), {"final_time_step": T1, "initial_time_step": T0 + 1, "trajectory": traj, "_trajectory": traj}, label="prediction")
+            ob = Obj(omod.classes["DynamicObstacle"], {"occupancy_at_time": PyFunc(occ_at, "occupancy_at_time"), "initial_state": st(T0), "_initial_state": st(T0), "prediction": pred, "_prediction": pred, "obstacle_id": 47, "_obstacle_id": 47, "obstacle_type": Obj(None, {}, closed=True, label="type"), "signal_state_at_time_step": PyFunc(lambda a, k: NONE, "signal_state_at_time_step")}, label="dynamic obstacle")
+            shape_p = Obj(None, {"zorder": 20, "facecolor": Str.lit("#000"), "edgecolor": Str.lit("#000")}, label="shape parameters")
+            occ_p = Obj(None, {"draw_occupancies": False, "shape": shape_p, "uncertain_position": Obj(None, {}, label="uncertain position parameters")}, label="occupancy parameters")
+            veh_occ_p = Obj(None, {"draw_occupancies": False, "shape": shape_p, "uncertain_position": Obj(None, {}, label="uncertain position parameters")}, label="vehicle occupancy parameters")
+            gp = Obj(dmod.classes.get("DynamicObstacleParams"), {"time_begin": tb, "time_end": te, "draw_icon": False, "show_label": False, "draw_shape": True, "draw_direction": False, "draw_initial_state": False, "draw_signals": False, "zorder": 20, "opacity": 1.0, "occupancy": occ_p, "trajectory": Obj(None, {"draw_trajectory": False}, label="trajectory parameters"), "history": Obj(None, {"draw_history": False}, label="history parameters"), "vehicle_shape": Obj(None, {"occupancy": veh_occ_p, "direction": Obj(None, {}, label="direction parameters")}, label="vehicle shape parameters"), "signals": Obj(None, {}, label="signal parameters"), "state": Obj(None, {}, label="state parameters")}, label="parameters")
+            me = Obj(r, {"draw_params": Obj(None, {}, closed=True, label="renderer parameters"), "focus_obstacle_id": NONE, "obstacle_patches": ListV([]), "dynamic_labels": ListV([]), "plot_center": NONE}, label="renderer")
+            ev = Ev(repo)
+            ev.pure_modules = {"np", "numpy", "math", "mpl", "matplotlib", "text"}
+            label = "%s, lives %d..%d, window [%d, %d)" % ("trajectory" if kind == "TrajectoryPrediction" else "set-based prediction", T0, T1, tb, te)
+            if kind == "TrajectoryPrediction":
+                want = [tb] if T0 <= tb <= T1 else []
+            else:
+                want = [t for t in range(tb, te) if T0 <= t <= T1]
+            bad = []
+            try:
+                ev.call_fn(ev.bind(fn_dyn, r, me), [ob, gp], {}, fn_dyn)
+                if sorted(drawn) != want:
+                    bad.append("draws the occupancies at %s, the model reports %s for this window" % (sorted(drawn), want))
+            except _Raise as x:
+                bad.append("raises %s" % x.what)
+            except Undecided as x:
+                raise AnalysisError("MPRenderer.draw_dynamic_obstacle [%s]: %s" % (label, x))
+            res.check("D-TIME", "draw_dynamic_obstacle [%s]: exactly the occupancies the model reports for the window" % label, not bad, m, fn_dyn, "draw_dynamic_obstacle [%s]: %s" % (label, "; ".join(bad)), "an obstacle that is present in the selected window is not drawn (or is drawn at other steps)", qualname="MPRenderer.draw_dynamic_obstacle")
 
     for name in ["draw_dynamic_obstacle"]:
         fn = r.methods[name]
